@@ -14,7 +14,7 @@ CHECKS = {
                           ("harness.matching", "C02_ClearingRound"), ("harness.matching", "C02_Continuous")],
             "post": ("harness.xcheck", "post_c02")},
     "C04": {"harnesses": [("harness.ophistory", "C04_OpHistory"), ("harness.ophistory", "C04_NegativeOps"),
-                          ("harness.runs", "C04_Spoofing")]},
+                          ("harness.runs", "C04_Spoofing"), ("harness.runs", "C04_HookWrittenVolume")]},
     "C05": {"harnesses": [("harness.runs", "C05_RunnerBasics")]},
     "C09": {"harnesses": [("harness.sessions", "C09_SessionRules")]},
     "C10": {"harnesses": [("harness.runs", "C10_RunnerBasics")]},
